@@ -305,8 +305,10 @@ class SqliteStorage(AbstractStorage):
                          starttime = ?,
                          endtime = ?,
                          datastr = ?
-                     WHERE id = ?"""
-        self.conn.execute(query, [bucket_id, starttime, endtime, datastr, event_id])
+                     WHERE id = ? AND bucketrow = (SELECT rowid FROM buckets WHERE id = ?)"""
+        self.conn.execute(
+            query, [bucket_id, starttime, endtime, datastr, event_id, bucket_id]
+        )
         self.conditional_commit(1)
         return True
 
